@@ -108,7 +108,19 @@ Definition m2_visit_list (assoc : bool) (srcs : list (option node)) : res (list 
     | Some _ => Ok (srcs, VSrc 1)
     | None => Ok (srcs, VDest)
     end
-  else if o_null dest then Ok (srcs, VSrc 1)
+  else if o_null dest then
+    (* a list-level directive element addresses the destination's list: with no such list, "delete" adds
+       nothing and "replace" / "merge" are elided (error of determineSmpDirective dropped, as in VisitMap) *)
+    if o_null origin then Ok (srcs, VSrc 1)
+    else
+      let '(ps, origin') := match determine_smp origin with
+                            | Ok r => r
+                            | _ => (SmpUnknown, origin)
+                            end in
+      match ps with
+      | SmpDelete => Ok (set_origin origin' srcs, VNil)
+      | _ => Ok (set_origin origin' srcs, VSrc 1)
+      end
   else if tagged_null origin then Ok (srcs, VNil)
   else
     do r <- determine_smp origin;
